@@ -530,7 +530,7 @@ int muggle_str_tof(const char *str, float *pval)
 		}
 	}
 
-	if (*pval == HUGE_VAL || *pval == HUGE_VALF || *pval == HUGE_VALL)
+	if ((*pval == HUGE_VALF || *pval == -HUGE_VALF) && errno == ERANGE)
 	{
 		// out of range
 		return 0;
@@ -562,7 +562,8 @@ int muggle_str_tod(const char *str, double *pval)
 			return 0;
 		}
 	}
-	else if ((*pval == HUGE_VAL || *pval == HUGE_VALF || *pval == HUGE_VALL) && errno == ERANGE)
+
+	if ((*pval == HUGE_VAL || *pval == -HUGE_VAL) && errno == ERANGE)
 	{
 		// out of range
 		return 0;
@@ -595,7 +596,8 @@ int muggle_str_told(const char *str, long double *pval)
 			return 0;
 		}
 	}
-	else if ((*pval == HUGE_VAL || *pval == HUGE_VALF || *pval == HUGE_VALL) && errno == ERANGE)
+
+	if ((*pval == HUGE_VALL || *pval == -HUGE_VALL) && errno == ERANGE)
 	{
 		// out of range
 		return 0;
